@@ -45,7 +45,9 @@ def run_long_history(tape):
     from sim.loop import SimStall
     from sim.seams import Env
 
-    env = Env(tape, faults=WireFaults(delay_buckets=(50e-6, 20e-6, 120e-6)))
+    # (the send loop legitimately packs a burst of thousands of queued requests without
+    # yielding: its line budget covers the largest burst)
+    env = Env(tape, faults=WireFaults(delay_buckets=(50e-6, 20e-6, 120e-6)), stall_limit=200000)
     world, bus = env.world, env.bus
     st = bus.add_terminal(SimTerminal(bus, "T0", station=1001, n_sm=0, n_fmmu=0))
     for a in range(0x1000, 0x9000):
@@ -53,7 +55,14 @@ def run_long_history(tape):
     long_run = tape.chance("c12/more-than-65536-frames", 2)
     n = 65536 + 300 + tape.draw("c12/extra-frames", 500) if long_run \
         else 200 + tape.draw("c12/frames", 3000)
-    hold_s = n * 400e-6 + 1.0
+    # in some runs a burst of more than 4096 frames is lost while the first one is still
+    # held back (the table of frames under way only grows meanwhile), and in some a request
+    # that cannot be encoded at all (datagram index > 255) is made first: it fails, and
+    # nobody else notices
+    burst = 0 if long_run or not tape.chance("c12/lost-burst", 30) \
+        else 4097 + tape.draw("c12/lost-burst-extra", 700)
+    unsendable = tape.chance("c12/unsendable-request-first", 30)
+    hold_s = n * 400e-6 + 1.0 + (1.0 if burst else 0)
     ec = EtherCat("sim0")
     violations = []
     held = {}
@@ -65,7 +74,12 @@ def run_long_history(tape):
     def expect(off, k):
         return bytes(st.mem[off:off + k])
 
+    lose = [False]
+
     def delay_for(no, frame):
+        if lose[0]:
+            world.count("fault/frame-lost-in-burst")
+            return 1e7
         if not held and len(frame) > 30 and frame[26:28] != b"\0\0" and started[0]:
             held["no"] = no
             return hold_s
@@ -80,12 +94,38 @@ def run_long_history(tape):
     async def main(loop):
         await ec.connect()
         bus.delay_for = delay_for
+        if unsendable:
+            world.count("c12/unsendable-request")
+            try:
+                await asyncio.wait_for(
+                    ec.roundtrip(ECCmd.FPRD, 1001, 0x1000, data=4,
+                                 idx=256 + tape.draw("c12/bad-idx", 1000)), 0.5)
+                viol("never-fit-completed", "a request with a datagram index beyond 255 "
+                     "completed with a value", long_history=True)
+            except asyncio.TimeoutError:
+                viol("never-fit-pending", "a request with a datagram index beyond 255 (which "
+                     "no frame can carry) neither failed nor completed within 0.5 s",
+                     long_history=True)
+            except Exception:
+                pass
         started[0] = True
         late = asyncio.ensure_future(late_request())
         for _ in range(100):          # its frame leaves on its own, then the others follow
             if held:
                 break
             await asyncio.sleep(20e-6)
+        lost = []
+        if burst and held:
+            lose[0] = True
+            lost = [asyncio.ensure_future(ec.roundtrip(ECCmd.FPRD, 1001, 0x1000 + i, data=900))
+                    for i in range(burst)]
+            for _ in range(2000):
+                if world.counters.get("fault/frame-lost-in-burst", 0) >= burst:
+                    break
+                await asyncio.sleep(500e-6)
+            lose[0] = False
+            world.count("c12/frames-lost-behind-a-held-one",
+                        world.counters.get("fault/frame-lost-in-burst", 0))
         for i in range(n):
             off = 0x1000 + (i * 3) % 0x7000
             try:
@@ -105,6 +145,8 @@ def run_long_history(tape):
             viol("never-completed", f"the request whose frame was held back for {hold_s:.1f} s "
                  f"never completed although the frame arrived ({done['served']} requests were "
                  f"served meanwhile)", long_history=True)
+        for f in lost:
+            f.cancel()
         if done["late"] is not None and done["late"] != expect(0x8800, 6):
             viol("wrong-bytes", f"the held-back request returned {done['late'].hex()}, the "
                  f"terminal holds {expect(0x8800, 6).hex()}", long_history=True)
@@ -115,6 +157,8 @@ def run_long_history(tape):
         except SimStall as e:
             viol("master-stalled", str(e), long_history=True)
         for m, tn, txt in env.loop_exceptions():
+            if tn == "error" and unsendable and "format requires" in txt:
+                continue    # process_packet fails the unsendable request and re-raises
             if tn != "CancelledError":
                 viol("library-task-died", f"{m}: {tn}: {txt}", exception=tn)
     world.count("c12/frames-behind-a-held-one", done["served"])
